@@ -25,6 +25,8 @@ def main():
             for e in errs:
                 print('translator (%s): %s' % (name, e))
     gen_coqproject.main()
+    if '--pregen-only' in sys.argv:
+        return
     subprocess.run(['coq_makefile', '-f', '_CoqProject', '-o', 'Makefile'], cwd='coq', check=True, stdout=subprocess.DEVNULL)
     rc = subprocess.run(['timeout', '3400', 'make', '-k', '-j16', 'COQC=' + os.path.join(HERE, 'harness', 'coqc_limited.sh')], cwd='coq').returncode
     if rc != 0:
